@@ -82,7 +82,7 @@ CLAIMS = {
         "default_count_suffices (for every method, n>=1, order and any generator that checks its count or has none, rule size - 1 < "
         "num_steps, so the _apply guard cannot fire for a valid configuration); num_steps_logic; documented default ratios; "
         "stepsMax/Min_closed_form, steps_geometric (steps[k+1]*rho = steps[k], nothing dropped for non-zero base/ratio, a zero base "
-        "dropped entirely) over ordered fields. Tie: translator + exact grid of the generated logic vs the implementation, emitted "
+        "dropped entirely; emitStepsVec_zero_component / emitStepsVec_eq: a per-variable base step with one vanishing entry leaves no step, nothing is dropped otherwise) over ordered fields. Tie: translator + exact grid of the generated logic vs the implementation, emitted "
         "lists vs the Rat model (<= 4 ulp, libm pow), rule size vs step count on a grid. Partial: EPS**(1/scale), log(1.718+|x|), "
         "round(16/log rho) are transcendental inputs of the model.",
    technique="Lean 4 proof on translator-generated definitions + exact/ulp correspondence of counts and sequences"),
@@ -91,7 +91,7 @@ CLAIMS = {
         "call-path model (which guard lies on which path of Derivative/Gradient/Jacobian/Hessdiag/Hessian.__call__, directionaldiff, "
         "Residue.__init__, CStepGenerator) is hand-written. Theorems, unbounded in their integers: complex_misuse_raises (all five "
         "classes, complex/multicomplex, complex x or complex-valued f => ValueError), multicomplex_high_order_raises (n>2), "
-        "too_few_steps_raises, no_steps_raises (zero generated steps, every class), wrong_size_raises, directionaldiff/residue/path guards, fd_weights/fd_derivative guards (C15/C16), and "
+        "too_few_steps_raises, no_steps_raises (zero generated steps, every class; with emitStepsVec_zero_component also for a per-variable base step with one vanishing entry, the generator loop being pinned by the translator), wrong_size_raises, directionaldiff/residue/path guards, fd_weights/fd_derivative guards (C15/C16), and "
         "valid_call_returns (no false rejection). Outcome is a sum type, so ValueError excludes a numeric result. Tie: the complete "
         "finite outcome table class x method x flags x dimension x n x order and a malformed stream, executed on the real classes.",
    technique="Lean 4 decision-logic theorems on translator-generated guards + exhaustive outcome-table correspondence"),
@@ -141,8 +141,11 @@ CLAIMS = {
         "at one row of column c, that row depends on column c alone, equals what the one-column table gives, and two tables agreeing on "
         "column c give the same result; the Wynn stage combines cells of one column only; lengths = ncols; args_forwarded. Tie: "
         "_get_best_estimate on tables with ties, NaN and all-NaN columns bit for bit; public Derivative on arrays of 0..3 axes: the tail "
-        "model on the captured Richardson outputs reproduces value, error_estimate, final_step, index bit for bit. Partial: NaN handling "
-        "is validated by the Float runs only (fields have no NaN); numpy axis semantics are modelled.",
+        "model on the captured Richardson outputs reproduces value, error_estimate, final_step, index bit for bit. argMinRow_skips_nan / "
+        "bestEstimate_err_not_nan (any carrier with a NaN, from the two IEEE comparison facts as hypotheses, shown satisfiable on the carrier "
+        "NanRat): the selected row is a row of the table whose penalised error is not NaN whenever the column has one, so the reported "
+        "estimate of that element is not NaN. Partial: the quartile arithmetic on NaN-containing columns is validated by the Float runs "
+        "only; numpy axis semantics are modelled.",
    technique="Lean 4 proof of index bookkeeping / column-independence + bit-exact Float correspondence"),
  'C05': dict(
    text="Lean model of the argument lists of every difference function of the four classes (Derivative, Jacobian/Gradient, Hessdiag, Hessian; "
@@ -175,7 +178,8 @@ CLAIMS = {
         "give the same exactness for the complex-step and bicomplex formulas. hessian_cells_generated / hessian_complex_cell_generated: the cell "
         "expressions regenerated from the loop bodies of HessianDifferenceFunctions on every run are definitionally the modelled cells. "
         "Tie: translator; all six difference functions on dyadic polynomials = "
-        "the exact model (Rat, Gaussian rationals, generated Bicomplex ring over Gaussian rationals). Partial: rounding; non-quadratic f "
+        "the exact model (Rat, Gaussian rationals, generated Bicomplex ring over Gaussian rationals); engine hess.screen: the "
+        "implementation's outlier screen on a (steps x entries) table with NaN rows = the same screen column by column. Partial: rounding; non-quadratic f "
         "(search).",
    technique="Lean 4 proof (symmetry by construction, exactness on quadratics by ring identities) + exact correspondence on dyadic data"),
  'C09': dict(
